@@ -1,5 +1,5 @@
 SPECIFICATION TSpec
-CONSTANTS FixZ1=TRUE FixQ1=TRUE Procs={"syncdb","syncdb2","disable","snap","enable"}
+CONSTANTS FixZ1=TRUE FixQ1=TRUE FixR=TRUE Procs={"syncdb","syncdb2","disable","snap","enable","compact"}
 CONSTRAINT Mark
 CHECK_DEADLOCK FALSE
 POSTCONDITION Post
